@@ -145,7 +145,10 @@ def rule_leading_zero(ctx):
     if octal_branch:
         # a guard: an error(...) call whose condition inspects the literal text for a leading zero / non-octal digit
         guarded = False
-        for n in ast.walk(fn):
+        # the guard may live in a module-level helper p_int_literal calls (one level)
+        called = {c.func.id for c in ast.walk(fn) if isinstance(c, ast.Call) and isinstance(c.func, ast.Name)}
+        helpers = [f for f in ptree.body if isinstance(f, ast.FunctionDef) and f.name in called and f.name != 'error']
+        for n in [x for f in [fn] + helpers for x in ast.walk(f)]:
             if isinstance(n, ast.If) and any(isinstance(c, ast.Call) and isinstance(c.func, (ast.Name, ast.Attribute)) and
                                              (getattr(c.func, 'id', None) == 'error' or getattr(c.func, 'attr', None) == 'error') for s in n.body for c in ast.walk(s)):
                 t = ast.unparse(n.test)
